@@ -13,6 +13,25 @@ def arithF : Arith Float :=
     equal := GenF.Equal,
     trunc := fun x => Float.ofInt (x.toInt64.toInt) }
 
+def decodeF (x : Float) : Nat × Int :=
+  let b := x.toBits.toNat % 2 ^ 63
+  let ex : Nat := b / 2 ^ 52
+  let fr : Nat := b % 2 ^ 52
+  if ex == 0 then (fr, -1074) else (fr + 2 ^ 52, Int.ofNat ex - 1075)
+
+/-- math.Mod, exact (the remainder of two doubles is a double; sign of x) -/
+def fmodF (x y : Float) : Float :=
+  if y == 0 || x.isInf || x.isNaN || y.isNaN then (0.0 / 0.0)
+  else if y.isInf then x
+  else
+    let (mx, ex) := decodeF x
+    let (my, ey) := decodeF y
+    let e := min ex ey
+    let X := mx * 2 ^ (ex - e).toNat
+    let Y := my * 2 ^ (ey - e).toNat
+    let r := (Float.ofNat (X % Y)).scaleB e
+    if x.toBits >>> 63 == 1 then -r else r
+
 def opsF : Ops Float :=
   { arithF with
     ident := ⟨1.0, 0.0, 0.0, 0.0, 1.0, 0.0⟩,
@@ -22,7 +41,7 @@ def opsF : Ops Float :=
     reflectXAbout := GenF.Matrix.ReflectXAbout, reflectYAbout := GenF.Matrix.ReflectYAbout,
     scaleAbout := GenF.Matrix.ScaleAbout, shearAbout := GenF.Matrix.ShearAbout,
     rectTransform := GenF.Rect.Transform, rectAdd := GenF.Rect.Add,
-    checkDash := checkDashImpl arithF }
+    checkDash := checkDashImpl arithF fmodF }
 
 inductive Cmd
   | op (o : Op Float)
